@@ -1,6 +1,162 @@
-(* C04 -- stub, being built *)
+(* C04 -- Windows, slices and indices mean what they mean on the full array.
+   Statements only; proofs live in Proofs/Lazy*.v and Proofs/SliceProofs.v.
+
+   Model: Model/LazyRead.v (abstract per-channel view of a file: per segment the
+   chunk size, number of chunks, final chunk length, layout kind, chunk values).
+   [lz_read] mirrors read_raw_data_for_channel + TdmsChannel._read_channel_data of
+   the REPAIRED reader (dev/patches/D3.patch, D13.patch), [lz_read_asis] today's
+   /repo at the time the defects were found.  [read_slice_gen] and
+   [read_at_index_check] are translated from nptdms/tdms.py on every run
+   (Gen/PySlice_gen.v). *)
 From Coq Require Import ZArith List Bool.
-From NpTdms Require Import Base.Res Base.PySlice Model.LazyRead Model.LazyReadZ.
-Import ListNotations. Open Scope Z_scope.
-Example stub : True. Proof. exact I. Qed.
-Print Assumptions stub.
+From NpTdms Require Import Base.Res Base.PySlice Gen.PySlice_gen Model.LazyRead Model.LazyReadZ
+     Proofs.LazyReadLemmas Proofs.LazyIndexProofs Proofs.LazyReadProofs Proofs.LazyWindowProofs
+     Proofs.SliceProofs Proofs.LazyTopProofs.
+Import ListNotations.
+Open Scope Z_scope.
+
+Section C04.
+  Variable V : Type.
+  Variable zero : V.
+
+  (* (i) read_data(offs, len) = full[offs : offs+len], for every position of the
+     window relative to segment and chunk boundaries, truncated final chunks,
+     segments without the channel, offs beyond the end; both receiver kinds.
+     [wf]: every segment's chunk list has the lengths its metadata declares
+     (nchunks chunks of sv_chunk values, the last one sv_final when present,
+     0 <= final <= chunk). *)
+  Theorem window_correct : forall rk (segs : list (segv V)) offs len,
+      wf V segs = true -> 0 <= offs -> (match len with None => True | Some l => 0 <= l end) ->
+      lz_read V zero rk segs offs len =
+      Ok (match len with
+          | None => zskipn offs (full V segs)
+          | Some l => zfirstn l (zskipn offs (full V segs))
+          end).
+  Proof. exact (LazyTopProofs.window_correct V zero). Qed.
+
+  Theorem window_rejects_negative : forall rk (segs : list (segv V)) offs len,
+      offs < 0 \/ (exists l, len = Some l /\ l < 0) ->
+      lz_read V zero rk segs offs len = Err EValue.
+  Proof. exact (lz_read_negative V zero). Qed.
+
+  (* (ii) on the TRANSLATED _read_slice: executing its plan with the lazy reader
+     is Python's full[start:stop:step]; step = 0 is ValueError on both sides
+     (py_slice3 returns Err EValue).  Negative, out-of-range and None bounds,
+     positive and negative steps, zero-length channels included. *)
+  Theorem slice_plan_correct : forall rk (segs : list (segv V)) start stop step,
+      wf V segs = true ->
+      run_slice (fun a b => lz_read V zero rk segs a (Some b)) (total_values V segs) start stop step
+      = py_slice3 (full V segs) start stop step.
+  Proof. exact (LazyTopProofs.slice_plan_correct V zero). Qed.
+
+  (* the same against an ideal reader, for any data (n = len(full) >= 0 is implicit) *)
+  Theorem slice_plan_correct_ideal : forall (data : list V) start stop step,
+      run_slice (read_ideal data) (zlen data) start stop step = py_slice3 data start stop step.
+  Proof. exact (@SliceProofs.slice_plan_correct_ideal V). Qed.
+
+  (* (iii) channel[i]: the value NumPy indexing gives (negative indices wrap once)
+     or IndexError, whatever chunk the cache currently holds *)
+  Theorem index_correct : forall (segs : list (segv V)) st i,
+      wf V segs = true -> cache_inv V segs st ->
+      match py_index (full V segs) i with
+      | Ok x => exists st' log, read_at_index V segs st i = Ok (x, st', log) /\ cache_inv V segs st'
+      | Err _ => read_at_index V segs st i = Err EIndex
+      end.
+  Proof.
+    intros segs st i Hwf Hinv. pose proof (LazyTopProofs.index_correct V segs st i Hwf Hinv) as H.
+    destruct (py_index (full V segs) i); [|exact H].
+    destruct H as (st' & log & H1 & H2 & _). eauto.
+  Qed.
+
+  (* (iv) the eager path: slice_raw_data is the same window *)
+  Theorem eager_window_correct : forall (data : list V) offs len,
+      0 <= offs -> (match len with None => True | Some l => 0 <= l end) ->
+      eager_read V data offs len =
+      match len with None => zskipn offs data | Some l => zfirstn l (zskipn offs data) end.
+  Proof. exact (LazyTopProofs.eager_window_correct V). Qed.
+End C04.
+
+(* Python's slice semantics used above is tied to CPython's element loop *)
+Check @py_slice3_nth_pos.
+Check @py_slice3_nth_neg.
+Check @py_slice_neg_stop.
+
+(* ---- the unrepaired loop is refuted (DESIGN section 9, D3) ----------------- *)
+(* segments a(4) | b only | a(4) x 3 chunks ; read_data(0, 6) *)
+Definition d3_file : list segz :=
+  [ mk 4 1 None false [[1; 2; 3; 4]];
+    mk 0 1 None false [[]];
+    mk 4 3 None false [[5; 6; 7; 8]; [9; 10; 11; 12]; [13; 14; 15; 16]] ].
+
+Theorem window_refuted : exists (segs : list segz) offs len,
+    wf Z segs = true /\ 0 <= offs /\ 0 <= len /\
+    (forall rk, lz_read_asis Z 0 rk segs offs (Some len) <> Ok (zfirstn len (zskipn offs (full Z segs)))).
+Proof.
+  exists d3_file, 0, 6. repeat split; try (vm_compute; congruence).
+  intros rk. destruct rk; vm_compute; congruence.
+Qed.
+
+(* what today's code does on the witness: ValueError for NumPy receivers,
+   silently two values too many for strings *)
+Example d3_numpy : lz_read_asis Z 0 RNumpy d3_file 0 (Some 6) = Err EValue.
+Proof. vm_compute. reflexivity. Qed.
+Example d3_strings : lz_read_asis Z 0 RList d3_file 0 (Some 6) = Ok [1; 2; 3; 4; 5; 6; 9; 10].
+Proof. vm_compute. reflexivity. Qed.
+Example d3_repaired : forall rk, lz_read Z 0 rk d3_file 0 (Some 6) = Ok [1; 2; 3; 4; 5; 6].
+Proof. intros rk. rewrite window_correct by (vm_compute; congruence). reflexivity. Qed.
+
+(* D13: final chunk in which the channel has no values *)
+Definition d13_file : list segz := [ mk 4 3 (Some 0) false [[0; 1; 2; 3]; [4; 5; 6; 7]; []] ].
+Theorem window_refuted_d13 :
+    wf Z d13_file = true /\
+    lz_read_asis Z 0 RNumpy d13_file 0 (Some 2) = Err EValue /\
+    lz_read_asis Z 0 RList d13_file 0 (Some 2) = Ok [0; 1; 4; 5] /\
+    lz_read Z 0 RNumpy d13_file 0 (Some 2) = Ok [0; 1].
+Proof. repeat split; vm_compute; reflexivity. Qed.
+
+(* ---- non-vacuity: a file with an absent-channel segment, multi-chunk segments,
+   an interleaved segment and a truncated final chunk satisfies wf, and the
+   theorems apply to it ------------------------------------------------------ *)
+Definition ex_file : list segz :=
+  [ mk 3 2 None false [[1; 2; 3]; [4; 5; 6]];
+    mk 0 2 None false [[]; []];
+    mk 4 0 None false [];
+    mk 4 2 None true [[7; 8; 9; 10]; [11; 12; 13; 14]];
+    mk 5 3 (Some 2) false [[15; 16; 17; 18; 19]; [20; 21; 22; 23; 24]; [25; 26]] ].
+
+Example ex_wf : wf Z ex_file = true.
+Proof. vm_compute. reflexivity. Qed.
+
+Example ex_window : lz_read Z 0 RNumpy ex_file 4 (Some 19) =
+                    Ok [5; 6; 7; 8; 9; 10; 11; 12; 13; 14; 15; 16; 17; 18; 19; 20; 21; 22; 23].
+Proof. rewrite window_correct by (vm_compute; congruence). vm_compute. reflexivity. Qed.
+
+Example ex_window_eval : lz_read Z 0 RNumpy ex_file 4 (Some 19) =
+                         Ok [5; 6; 7; 8; 9; 10; 11; 12; 13; 14; 15; 16; 17; 18; 19; 20; 21; 22; 23].
+Proof. vm_compute. reflexivity. Qed.
+
+Example ex_slice : run_slice (fun a b => lz_read Z 0 RNumpy ex_file a (Some b)) (total_values Z ex_file)
+                             (Some (-3)) (Some (-30)) (Some (-7))
+                   = Ok [24; 17; 10; 3].
+Proof. rewrite slice_plan_correct by exact ex_wf. vm_compute. reflexivity. Qed.
+
+Example ex_index : exists st' log, read_at_index Z ex_file None (-4) = Ok (23, st', log).
+Proof.
+  pose proof (index_correct Z ex_file None (-4) ex_wf I) as H.
+  vm_compute in H. destruct H as (st' & log & H & _). eauto.
+Qed.
+
+Example ex_index_error : read_at_index Z ex_file None 26 = Err EIndex /\
+                         read_at_index Z ex_file None (-27) = Err EIndex.
+Proof. split; vm_compute; reflexivity. Qed.
+
+Print Assumptions window_correct.
+Print Assumptions window_rejects_negative.
+Print Assumptions slice_plan_correct.
+Print Assumptions slice_plan_correct_ideal.
+Print Assumptions index_correct.
+Print Assumptions eager_window_correct.
+Print Assumptions window_refuted.
+Print Assumptions window_refuted_d13.
+Print Assumptions py_slice3_nth_pos.
+Print Assumptions py_slice3_nth_neg.
